@@ -330,12 +330,12 @@ func TestC20Lag(t *testing.T) {
 	rec := evid.For("C20")
 	type lagCase struct {
 		Client bool
-		Op     string // read | write | both
+		Op     string // read | write | both | closeread | closeread+write
 		Final  string
 	}
 	var cases []lagCase
 	for _, client := range []bool{false, true} {
-		for _, op := range []string{"read", "write", "both"} {
+		for _, op := range []string{"read", "write", "both", "closeread", "closeread+write"} {
 			for _, fin := range []string{"CloseNow", "Close"} {
 				cases = append(cases, lagCase{client, op, fin})
 			}
@@ -357,7 +357,10 @@ func TestC20Lag(t *testing.T) {
 		if c.Op == "read" || c.Op == "both" {
 			e.Go(func() { lc.C.Read(context.Background()) })
 		}
-		if c.Op == "write" || c.Op == "both" {
+		if strings.HasPrefix(c.Op, "closeread") {
+			lc.C.CloseRead(context.Background()) // the library's own reader goroutine sits in the transport
+		}
+		if c.Op == "write" || c.Op == "both" || c.Op == "closeread+write" {
 			lc.End.SetInBudget(0)
 			e.Go(func() { lc.C.Write(context.Background(), websocket.MessageBinary, make([]byte, 9000)) })
 		}
